@@ -787,7 +787,7 @@ func genFault(tier string) []hist {
 				}
 				for _, mode := range []string{"none", "file"} {
 					for second := 0; second < 2; second++ {
-						if second == 1 && !(n == 2 && k == 1 && mode == "none" || tier == "thorough" && n <= 3) {
+						if second == 1 && !(n == 2 && k == 1 || tier == "thorough" && n <= 3) {
 							continue
 						}
 						prefixEdit := strings.HasPrefix(e.kind, "prefix-") && k >= 1
